@@ -1,8 +1,127 @@
 import AFV.Driver.Proto
+import AFV.Model.EinsumStr
 namespace AFV.Driver.C23
-open Lean AFV.Proto
+open Lean AFV.Proto AFV.EinsumStr
 
-/-- Handler for property C23 requests (stub: not implemented yet). -/
-def handle (_req : Json) : Json := err "unimplemented"
+private def js (s : Str) : Json := Json.str (String.ofList s)
+
+private def projJson (p : Proj) : Json :=
+  Json.arr (p.map (fun kv => Json.arr #[js kv.1, js kv.2])).toArray
+
+private def accessJson (a : Access) : Json :=
+  Json.mkObj [("name", js a.name), ("projection", projJson a.proj), ("output", Json.bool a.output)]
+
+private def parsedJson : Option Parsed → Json
+  | none => Json.null
+  | some p => Json.mkObj [("name", js p.name), ("tensor_accesses", Json.arr (p.accesses.map accessJson).toArray)]
+
+private def str? (j : Json) : Option Str := (getStr? j).map String.toList
+
+private def pair? (j : Json) : Option (Str × Str) := do
+  let a ← getArr? j
+  if a.size != 2 then none else
+  let k ← str? a[0]!
+  let v ← str? a[1]!
+  pure (k, v)
+
+private def vproj? (j : Json) : Option VProj := do
+  let kind ← (field? j "kind").bind getStr?
+  let items ← (field? j "items").bind getArr?
+  if kind == "list" then
+    let xs ← items.toList.mapM str?
+    pure (.list xs)
+  else if kind == "dict" then
+    let xs ← items.toList.mapM pair?
+    pure (.dict xs)
+  else none
+
+private def vaccess? (j : Json) : Option VAccess := do
+  let n ← (field? j "name").bind str?
+  let p ← (field? j "projection").bind vproj?
+  let o ← (field? j "output").bind getBool?
+  pure ⟨n, p, o⟩
+
+private def boolList? (j : Json) : Option (List Bool) := do
+  let a ← getArr? j
+  a.toList.mapM getBool?
+
+private def extra? (j : Json) : Option (Extra String) := do
+  let nm ← field? j "name"
+  let name ← (match nm with
+    | Json.null => some none
+    | Json.str s => some (some s.toList)
+    | _ => none)
+  let attrs ← (field? j "attrs").bind getArr?
+  let kvs ← attrs.toList.mapM (fun kv => do
+    let a ← getArr? kv
+    if a.size != 2 then none else
+    let k ← getStr? a[0]!
+    let v ← getStr? a[1]!
+    pure (k, v))
+  pure ⟨name, kvs⟩
+
+private def maccessJson (a : MAccess String) : Json :=
+  Json.mkObj [("name", js a.name), ("projection", projJson a.proj), ("output", Json.bool a.output),
+    ("extra", Json.arr (a.extra.map (fun kv => Json.arr #[Json.str kv.1, Json.str kv.2])).toArray)]
+
+/-- ops:
+  {"op":"analyse","s":str}  → model / strict parse, grammar verdicts and the facts used to classify a failure
+  {"op":"print","out":acc,"ins":[acc],"sty":[[bool]],"ws":[str]} → {"s","canon","verbose"}
+  {"op":"entry","s":str,"extras":[{"name":str|null,"attrs":[[k,v]]}]} → {"name","accesses"} | null
+  {"op":"factory","projection":vproj} → proj | null -/
+def handle (req : Json) : Json :=
+  match (field? req "op").bind getStr? with
+  | some "analyse" =>
+    match (field? req "s").bind str? with
+    | some s =>
+      let t := strip s
+      let head := matchRef t
+      let (lhsOk, rhs, op) := match head with
+        | some (_, op, '=' :: rhs) => (true, rhs, op)
+        | _ => (false, [], [])
+      let ms := findAll rhs.length rhs
+      Json.mkObj [
+        ("model", parsedJson (parse s)),
+        ("strict", parsedJson (parseStrict s)),
+        ("grammar", Json.bool (recognise s)),
+        ("grammar_nows", Json.bool (recogniseNoWs t)),
+        ("no_split_word", Json.bool (noSplitWord s)),
+        ("stripped", js t),
+        ("eq_count", ofNat (t.count '=')),
+        ("lhs_ok", Json.bool lhsOk),
+        ("rhs_covered", Json.bool (lhsOk && rhsCovered rhs)),
+        ("no_open", Json.bool (noOpen op && ms.all (fun m => noOpen m.2))),
+        ("n_matches", ofNat ms.length)]
+    | none => err "malformed"
+  | some "print" =>
+    match (field? req "out").bind vaccess?, (field? req "ins").bind getArr?,
+          (field? req "sty").bind getArr?, (field? req "ws").bind getArr? with
+    | some out, some ins, some sty, some ws =>
+      match ins.toList.mapM vaccess?, sty.toList.mapM boolList?, ws.toList.mapM str? with
+      | some ins, some sty, some ws =>
+        Json.mkObj [
+          ("s", js (printWs out ins sty (fun i => ws.getD i []))),
+          ("canon", js (printCanon out ins sty)),
+          ("verbose", parsedJson (verbose out.name (ins ++ [out])))]
+      | _, _, _ => err "malformed"
+    | _, _, _, _ => err "malformed"
+  | some "entry" =>
+    match (field? req "s").bind str?, (field? req "extras").bind getArr? with
+    | some s, some xs =>
+      match xs.toList.mapM extra? with
+      | some xs =>
+        let enc : Option (Str × List (MAccess String)) → Json := fun r => match r with
+          | none => Json.null
+          | some (n, accs) => Json.mkObj [("name", js n), ("accesses", Json.arr (accs.map maccessJson).toArray)]
+        Json.mkObj [("current", enc (parseEntry s xs)), ("strict", enc (parseEntryStrict s xs))]
+      | none => err "malformed"
+    | _, _ => err "malformed"
+  | some "factory" =>
+    match (field? req "projection").bind vproj? with
+    | some p => match projFactory p with
+      | some d => projJson d
+      | none => Json.null
+    | none => err "malformed"
+  | _ => err "bad-op"
 
 end AFV.Driver.C23
